@@ -97,9 +97,11 @@ class Ctx:
             self.samples.append(obj)
 
     def fail(self, clause, scenario, detail):
+        _raise_if_harness_fault(detail)
         self.failures.append(Failure(clause, scenario, detail, 'oracle'))
 
     def disagree(self, scenario, impl, model, what=''):
+        _raise_if_harness_fault(impl)
         self.disagreements.append(Failure(
             'correspondence' + (':' + what if what else ''), scenario,
             {'impl': impl, 'model': model}, 'correspondence'))
@@ -107,6 +109,39 @@ class Ctx:
     def note(self, msg):
         self.notes.append(msg)
         print(f'[{self.pid}] {msg}', flush=True)
+
+
+class HarnessFault(Exception):
+    """an exception raised by the checking machinery itself (not by the library under test)"""
+
+
+def _tracebacks(x, depth=0):
+    if depth > 6:
+        return
+    if isinstance(x, dict):
+        for k, v in x.items():
+            if k == 'tb' and isinstance(v, str):
+                yield v
+            else:
+                yield from _tracebacks(v, depth + 1)
+    elif isinstance(x, (list, tuple)):
+        for v in x[:50]:
+            yield from _tracebacks(v, depth + 1)
+
+
+def _raise_if_harness_fault(detail):
+    """A traceback whose innermost frame is in /verif/harness and whose message says that a module
+    attribute of the library is missing means a private helper the harness leans on (wn._db.connect,
+    wn._add.BATCH_SIZE) was renamed: an infrastructure error (exit 2), not a violation.  Any other
+    exception surfacing in harness frames (the library returned something unusable) stays a failure."""
+    import re
+    for tb in _tracebacks(detail):
+        frames = re.findall(r'File "([^"]+)", line \d+', tb)
+        last = tb.strip().splitlines()[-1] if tb.strip() else ''
+        private_api_gone = re.search(r"(AttributeError: module 'wn[^']*' has no attribute|ImportError: cannot import name|"
+                                     r"ModuleNotFoundError: No module named 'wn)", last)
+        if frames and '/harness/' in frames[-1] and '/wn/' not in frames[-1] and private_api_gone:
+            raise HarnessFault('the harness leans on a helper of the library that is gone:\n' + tb[-800:])
 
 
 # ---------------------------------------------------------------------------
